@@ -44,7 +44,21 @@ pub fn generate(seed: u64, tier: &str, sink: &mut Sink) {
     // may put that delimiter into the data of the next upload
     let mut prev_boundary: Vec<u8> = vec![];
     let mut replayed = 0usize;
+    // forms whose pieces fall at every offset relative to the 8 KiB copy buffer: the length of the (first) file is
+    // swept one byte at a time over a window around 8 KiB, so that the close delimiter (22 bytes), the part
+    // header and the delimiter of a second part each straddle the buffer edge at every possible split
+    let mut swept: Vec<(Vec<(String, String)>, Vec<(String, Vec<u8>, Option<String>, Option<String>)>)> = vec![];
+    for l in (8192 - 230)..(8192 + 40) {
+        let data: Vec<u8> = (0..l).map(|i| (i % 251) as u8).collect();
+        swept.push((vec![], vec![("f".into(), data.clone(), Some("a.bin".into()), None)]));
+        if thorough || l % 2 == 0 {
+            swept.push((vec![("t".into(), "v".into())], vec![("f".into(), data, None, Some("text/plain".into())), ("g".into(), b"second part".to_vec(), Some("b".into()), None)]));
+        }
+    }
+    let nswept = swept.len();
+    let n = n + nswept;
     for i in 0..n {
+        let force = if i >= 2 && i - 2 < nswept { Some(swept[i - 2].clone()) } else { None };
         let nt = if i == 0 { 0 } else { rng.below(4) as usize };
         let nf = if i == 0 { 0 } else if i == 1 { 1 } else { rng.below(4) as usize };
         let texts: Vec<(String, String)> = (0..nt)
@@ -82,6 +96,11 @@ pub fn generate(seed: u64, tier: &str, sink: &mut Sink) {
                 (gen_name(&mut rng), data, filename, mime)
             })
             .collect();
+        let (texts, files) = match force {
+            Some((t, f)) => (t, f),
+            None => (texts, files),
+        };
+        let (nt, nf) = (texts.len(), files.len());
         let case = SendCase {
             method: "POST".into(),
             url: "http://verif.test/upload".into(),
@@ -173,7 +192,7 @@ pub fn generate(seed: u64, tier: &str, sink: &mut Sink) {
             format!("ct={} pieces={}", hex(&ct_line), if pieces.is_empty() { "-".to_string() } else { pieces.iter().map(|p| hex(p)).collect::<Vec<_>>().join(",") })
         };
         sink.push(Case {
-            tags: vec![format!("texts={}", nt), format!("files={}", nf), format!("big={}", files.iter().any(|f| f.1.len() > 8192)), if nt + nf == 0 { "kind=empty-form".into() } else { "kind=form".into() }, format!("previous-boundary-in-data={}", replayed > 0 && { let r = replayed; replayed = 0; r > 0 })],
+            tags: vec![format!("texts={}", nt), format!("files={}", nf), format!("big={}", files.iter().any(|f| f.1.len() > 8192)), if nt + nf == 0 { "kind=empty-form".into() } else if i >= 2 && i - 2 < nswept { "kind=size-sweep".into() } else { "kind=form".into() }, format!("previous-boundary-in-data={}", replayed > 0 && { let r = replayed; replayed = 0; r > 0 })],
             op,
             impl_line,
             oracle: o,
